@@ -4,6 +4,7 @@ import (
 	"encoding/json"
 	"flag"
 	"fmt"
+	"hash/fnv"
 	"os"
 	"path/filepath"
 	"sort"
@@ -359,8 +360,10 @@ func round3(f float64) float64 { return float64(int(f*1000+0.5)) / 1000 }
 func writeReplay(dir, name, body string) string {
 	os.MkdirAll(dir, 0o755)
 	fn := sanitize(name)
-	if len(fn) > 150 {
-		fn = fn[:150]
+	if len(fn) > 120 {
+		h := fnv.New32a()
+		h.Write([]byte(name))
+		fn = fmt.Sprintf("%s_%08x", fn[:120], h.Sum32())
 	}
 	path := filepath.Join(dir, fn+".txt")
 	os.WriteFile(path, []byte(body), 0o644)
